@@ -45,6 +45,12 @@ Call(o, dep, raised, calls) ==
        ELSE /\ calls = <<>>                                        \* set_result / set_exception
             /\ spos' = Len(cbs) + 1
             /\ UNCHANGED <<cat, tried, max, resOn, ro, log, cbs, order, stopped>>
+(* a terminal action that is not refused but whose broker call fails (the broker is unreachable): the attempt is made, *)
+(* nothing is used up -- the handle can still be disposed of once the broker is back                                     *)
+CallFailing(o, calls) ==
+    /\ ~stopped /\ ~Refused(o) /\ o \in Terminal
+    /\ calls = <<BrokerOp(o)>>
+    /\ UNCHANGED vars
 AddCallback(tok) ==
     /\ ~stopped /\ cbs' = Append(cbs, tok)
     /\ UNCHANGED <<cat, tried, max, resOn, ro, log, spos, order, stopped>>
@@ -59,6 +65,7 @@ Next == /\ n < MaxLen /\ n' = n + 1
         /\ \/ \E o \in Terminal \cup Setters, dep \in BOOLEAN, r \in BOOLEAN, c \in {<<>>} \cup {<<BrokerOp(x)>> : x \in Terminal} :
                  (dep => cat = "n") /\ Call(o, dep, r, c)
            \/ AddCallback(n)
+           \/ \E o \in Terminal : CallFailing(o, <<BrokerOp(o)>>)
 Spec == Init /\ [][Next]_<<vars, n>>
 OneTerminal == Len(log) <= 1
 UsedIffLogged == ro <=> Len(log) = 1
